@@ -32,6 +32,7 @@ func (Area) Gen(r *rand.Rand, tier string, emit func(string)) {
 	for _, l := range edgeCases() {
 		emit(l)
 	}
+	genPipe(r, tier, emit)
 	n := 3000
 	if tier == "thorough" {
 		n = 30000
